@@ -287,7 +287,7 @@ func checkC04(c CaseC04, x *hx.Ctx) *hx.Failure {
 var propC04 = hx.Register(hx.Prop[CaseC04]{ID: "C04", Gen: genC04, Check: checkC04})
 
 func c04Rule() {
-	hx.Rec("C04").SetRule("cases: PCR base (33 bit) and extension (<300), PTS and DTS (33 bit) from the boundary-bit set (0, max, every single bit, 2^k-1, top bit set, max-d) or uniform; 16 bytes of prior buffer contents (field + canaries); a subset of the 6 reserved PCR bits and of the 7 non-value PTS bits to flip before decoding; 6 arbitrary bytes for decoder agreement. Oracle: explicit ISO bit-position tables (ref.EncodePCR/EncodePTS), round trip, canaries untouched, decoding invariant under non-value bit flips, both PTS decoders and the reference agree, end to end through AdaptationField.SetPCR/PCR, SetOPCR/OPCR and a PES header built by the reference model. Enumerated: all 300 extensions x all single-bit bases; all single- and double-bit PTS values x all 128 non-value bit subsets. Non-trivial: a value with bit 32 set, PTS bits 15/14 set, or PCR extension bit 8 set.",
+	hx.Rec("C04").SetRule("cases: PCR base (33 bit) and extension (<300), PTS and DTS (33 bit) from the boundary-bit set (0, max, every single bit, 2^k-1, top bit set, max-d) or uniform; 16 bytes of prior buffer contents (field + canaries); a subset of the 6 reserved PCR bits and of the 7 non-value PTS bits to flip before decoding; 6 arbitrary bytes for decoder agreement; the PTS decoders are also handed 6..16-byte slices starting with the field; the prefix code and marker bits of the PTS and DTS fields inside the PES header are flipped as well. Oracle: explicit ISO bit-position tables (ref.EncodePCR/EncodePTS), round trip, canaries untouched, decoding invariant under non-value bit flips, both PTS decoders and the reference agree, end to end through AdaptationField.SetPCR/PCR, SetOPCR/OPCR and a PES header built by the reference model. Enumerated: all 300 extensions x all single-bit bases; all single- and double-bit PTS values x all 128 non-value bit subsets. Non-trivial: a value with bit 32 set, PTS bits 15/14 set, or PCR extension bit 8 set.",
 		"the 4-bit prefix written by InsertPTS is not asserted (the statement does not fix it)")
 }
 
